@@ -213,6 +213,28 @@ Theorem materialize_overwrites_every_declared_column :
 Proof. exact @fill_no_stale. Qed.
 Print Assumptions materialize_overwrites_every_declared_column.
 
+(* ---- MEAN of integer-backed data (stats.py StatType.MEAN.compute: np.mean accumulates in float64).
+   The model is the exact rational mean of the integers; it is the QStats mean ... *)
+Theorem integer_mean_is_the_definition :
+  forall l, (int_mean l == qmean (map inject_Z l))%Q.
+Proof. exact int_mean_is_qmean. Qed.
+Print Assumptions integer_mean_is_the_definition.
+
+(* ... and accumulating in the column's own int64 type (`valid.sum() / valid.size`) agrees with it
+   EXACTLY when the column total stays inside [-2^63, 2^63) *)
+Theorem int64_accumulation_correct_iff_no_overflow :
+  forall l, l <> [] -> ((wrapped_mean l == int_mean l)%Q <-> in_int64 (zsum l)).
+Proof. exact wrapped_mean_correct_iff. Qed.
+Print Assumptions int64_accumulation_correct_iff_no_overflow.
+
+(* the int64-accumulating variant is refuted: three positive int64 cells, a negative "mean" *)
+Theorem int64_accumulation_refuted :
+  exists l, Forall in_int64 l /\ ~ (wrapped_mean l == int_mean l)%Q /\
+            (forall x, In x l -> (inject_Z x <= int_mean l)%Q \/ (int_mean l <= inject_Z x)%Q) /\
+            (wrapped_mean l < 0)%Q /\ (forall x, In x l -> (0 < x)%Z).
+Proof. exact wrapped_mean_refuted. Qed.
+Print Assumptions int64_accumulation_refuted.
+
 (* ---- non-vacuity: concrete columns on which the hypotheses hold *)
 Example ex_numerical :
   compute_num [NFin (3 # 2); NPosInf; NNaN; NFin (-1 # 4); NFin (5 # 1); NNegInf; NFin (3 # 2)]
@@ -242,6 +264,20 @@ Example ex_timestamps :
   = Some {| t_year_range := [1969; 1970]; t_newest := [1970; 0; 1; 4; 0; 0; 0];
             t_oldest := [1969; 11; 30; 2; 23; 59; 55]; t_median := [1970; 0; 0; 3; 0; 5; 0] |}%Z.
 Proof. vm_compute. reflexivity. Qed.
+
+Definition ex_small : list Z := [5; -7; 11]%Z.
+Definition ex_big : list Z := [4611686018427387904; 4611686018427386880; 4611686018427383808]%Z.
+Example ex_int_mean :
+  in_int64 (zsum ex_small) /\ (wrapped_mean ex_small == int_mean ex_small)%Q /\ (int_mean ex_small == 3)%Q /\
+  ~ in_int64 (zsum ex_big) /\
+  int_mean_ok ex_big (Some (DFin 9007199254740989 9)) = true /\       (* what numpy reports *)
+  int_mean_ok ex_big (Some (DFin (-6004799503160668) 8)) = false.       (* what the int64 sum would give *)
+Proof.
+  split; [unfold in_int64; vm_compute; split; [discriminate|reflexivity]|].
+  split; [vm_compute; reflexivity|]. split; [vm_compute; reflexivity|].
+  split; [unfold in_int64; vm_compute; intros [_ H]; discriminate|].
+  split; vm_compute; reflexivity.
+Qed.
 
 Import Strings.String.
 Example ex_history :
